@@ -157,32 +157,53 @@ def check(prop, tier, seed):
             if r.status == 'unsat':
                 n_dis += 1
                 continue
+            cand_models = None
             if r.status in ('unknown', 'error'):
-                undecided.append('%s: solver %s (%s)' % (r.name, r.status, r.reason[:120]))
-                continue
+                # counterexample search by finite instantiation of the quantified hypotheses; a model found this way is only a
+                # candidate and is reported only if it fails on the real code
+                from pyvc import finite
+                if r.ob.meta.get('replay') is None:
+                    undecided.append('%s: solver %s (%s)' % (r.name, r.status, r.reason[:120]))
+                    continue
+                hints = r.ob.meta.get('search_hints') or []
+                ob2 = type(r.ob)(r.ob.name, list(r.ob.hyps) + list(hints), r.ob.goal, r.ob.kind, meta=r.ob.meta, witness=r.ob.witness)
+                cand_models = finite.candidates(ob2, tier)
             # sat: a named obligation fails
             key = base_name(r.name)
             mk = r.ob.meta.get('replay')
-            call = None
-            if mk is not None and r.model:
-                try:
-                    call = mk(r.model)
-                except Exception as e:          # noqa
-                    call = None
-            payload = dict(property=prop, obligation=r.name, kind=r.ob.kind, model=r.model, call=call, solver_output='sat (%s, %.2fs)' % (r.backend, r.secs),
-                           goal=str(r.ob.goal)[:2000])
-            path = write_replay(prop, key, payload)
-            verdict = dict(fails=None, detail='no replay input for this obligation')
-            if call is not None:
-                verdict = run_replay(path)
-            payload['replay_verdict'] = verdict
-            json.dump(payload, open(path, 'w'), indent=1, default=str)
+            candidate = cand_models is not None
+            tries = cand_models if candidate else [(r.model, None)]
+            verdict, path, payload = dict(fails=None, detail='no replay input for this obligation'), None, None
+            for model, note in tries:
+                call = None
+                if mk is not None and model:
+                    try:
+                        call = mk(model)
+                    except Exception as e:          # noqa
+                        call = None
+                payload = dict(property=prop, obligation=r.name, kind=r.ob.kind, model=model, call=call,
+                               solver_output=('candidate model by %s after solver %s (%s)' % (note, r.status, r.reason[:100])) if candidate
+                               else 'sat (%s, %.2fs)' % (r.backend, r.secs),
+                               goal=str(r.ob.goal)[:2000], replay_module=getattr(ded.get('module'), 'REPLAY_MODULE', None))
+                path = write_replay(prop, key, payload)
+                verdict = dict(fails=None, detail='no replay input for this obligation')
+                if call is not None:
+                    verdict = run_replay(path)
+                payload['replay_verdict'] = verdict
+                json.dump(payload, open(path, 'w'), indent=1, default=str)
+                if verdict.get('fails') is True:
+                    break
+            if candidate and path is None:
+                undecided.append('%s: solver %s (%s); finite instantiation found no candidate' % (r.name, r.status, r.reason[:100]))
+                continue
             if (prop, key) in findings:
                 known_hits.append((key, findings[(prop, key)]))
                 continue
             in_lock = key in lock
             if verdict.get('fails') is True:
                 violations.append((key, path, '', verdict.get('detail', '')))
+            elif candidate:
+                undecided.append('%s: solver %s; the candidate counterexample found by finite instantiation passes on the real code' % (r.name, r.status))
             elif in_lock:
                 violations.append((key, path, ' no-failing-input-found', verdict.get('detail', '')))
             else:
